@@ -388,7 +388,7 @@ fn entry(r: &mut Rng, kind: u64, nonce: &str, used_ids: &mut Vec<String>) -> Str
 	};
 	match kind {
 		0..=4 => {
-			let m = *r.pick(&["echo_sync", "echo_async", "echo_blocking", "need_u64", "fail"]);
+			let m = *r.pick(&["echo_sync", "echo_async", "echo_blocking", "need_u64", "fail", "seq3", "ext_info", "ext_info_async"]);
 			let params = msggen::params_token(r, nonce);
 			let id = fresh_id(r, used_ids);
 			msggen::Members { jsonrpc: Some("\"2.0\"".into()), id: Some(id), method: Some(format!("\"{m}\"")), params, extra: vec![] }.render(r)
